@@ -14,7 +14,10 @@ fn span_json(s: cfgrammar::Span) -> Value {
     json!([s.start(), s.end()])
 }
 
-pub fn observe(grm: &YaccGrammar<u32>) -> Value {
+pub fn observe<S: 'static + num_traits::PrimInt + num_traits::Unsigned>(grm: &YaccGrammar<S>) -> Value
+where
+    usize: num_traits::AsPrimitive<S>,
+{
     let rules = grm.iter_rules().map(|r| {
         json!({"name": catch(|| grm.rule_name_str(r).to_string()).unwrap_or("PANIC".into()),
                "span": catch(|| span_json(grm.rule_name_span(r))).unwrap_or(json!([-7, -7])),
@@ -61,6 +64,9 @@ pub fn observe(grm: &YaccGrammar<u32>) -> Value {
         }
     }
     let _ = (PIdx(0u32), RIdx(0u32), TIdx(0u32));
+    let mut extra = serde_json::Map::new();
+    extra.insert("parse_param".into(), json!(grm.parse_param().clone().map(|(a, b)| vec![a, b]).unwrap_or_default()));
+    extra.insert("parse_generics".into(), json!(grm.parse_generics().clone().unwrap_or_default()));
     json!({"nr": nr, "nt": nt, "np": np, "rules": rules, "tokens": tokens, "prods": prods,
            "iter_rules": grm.iter_rules().map(usize::from).collect::<Vec<_>>(),
            "iter_tidxs": grm.iter_tidxs().map(usize::from).collect::<Vec<_>>(),
@@ -71,6 +77,7 @@ pub fn observe(grm: &YaccGrammar<u32>) -> Value {
            "expect": grm.expect().map(|x| x as i64).unwrap_or(-1), "expectrr": grm.expectrr().map(|x| x as i64).unwrap_or(-1),
            "implicit_rule": grm.implicit_rule().map(|x| usize::from(x) as i64).unwrap_or(-1),
            "programs": grm.programs().clone().unwrap_or_default(), "has_programs": grm.programs().is_some(),
+           "extra": extra,
            "rule_idx_ok": grm.iter_rules().all(|r| grm.rule_idx(grm.rule_name_str(r)) == Some(r) || grm.rule_name_str(r).starts_with('^') || grm.rule_name_str(r).starts_with('~')),
     })
 }
